@@ -286,6 +286,18 @@ type zzC11User struct {
 
 type zzC11Named string
 
+// values whose String method panics: a nil pointer with a pointer-receiver
+// method that reads a field, and an enumeration outside its name table
+type zzC11Level struct{ n int }
+
+func (l *zzC11Level) String() string { return "L" + strconv.Itoa(l.n) }
+
+type zzC11Enum int
+
+var zzC11EnumNames = []string{"zero", "one"}
+
+func (e zzC11Enum) String() string { return zzC11EnumNames[e] }
+
 var zzC11Programs = []string{
 	/* 0 */ `<div><template include="once.vuego"></template><template include="once.vuego"></template></div>`, // v-once only inside a component
 	/* 1 */ `<template include="two.vuego"><template v-html="h"></template></template>`, // <template v-html> as slot content used twice
@@ -297,6 +309,8 @@ var zzC11Programs = []string{
 	/* 7 */ `<template include="once.vuego"><template #x="p">{{ p.q.r }}</template></template>`,
 	/* 8 */ `<p v-text="pu.Name"></p><p v-html="u.Name"></p><template v-html="nm"></template>`,
 	/* 9 */ `<div v-for="x in xs" v-once><template include="once.vuego"></template></div>`,
+	/* 10 */ `<p>{{ lv }}|{{ en }}|{{ oklv }}</p><a title="t {{ lv }}" :data-e="en" :data-l="lv">x</a><i v-text="en"></i><ul><li v-for="e in ens" :title="e">{{ e }}</li></ul>`,
+	/* 11 */ `<p v-if="lv">{{ lv | string }}</p><p v-show="en" :class="{a: en, b: lv}">{{ en | upper }}</p><template include="once.vuego" :nm="en"></template>`,
 }
 
 // VerifC11_Features: small programs that combine the engine's features with
@@ -317,6 +331,11 @@ func VerifC11_Features() {
 		"nm": zzC11Named("named"),
 		"xs": []zzC11Named{"x1", "x2"},
 		"h":  "<b>hi</b>",
+		// the values of programs 10 and 11
+		"lv":   (*zzC11Level)(nil),
+		"oklv": &zzC11Level{n: 1},
+		"en":   zzC11Enum(5),
+		"ens":  []zzC11Enum{0, 7},
 	}
 	out, err := zzRenderVia(zzEntry(), fsys, nil, zzC11Programs[k], data)
 	zzNote("template", zzC11Programs[k])
